@@ -195,7 +195,9 @@ open NSG NSG.Defender
 /-- what an agent's own message can do to its record before the background steps -/
 inductive OwnStep (S : Settings) : Agent → Agent → Prop
   | req (a) : OwnStep S a { a with resetReq := true }
-  | play (a act v roll e) : a.ended = false → OwnStep S a { playedAgent S a act v roll with ended := e }
+  | play (a act v roll e) : a.ended = false →
+      ((playedAgent S a act v roll).status.terminal = true → e = true) →      -- `_update_agent_episode_end`: a terminal status always ends the episode
+      OwnStep S a { playedAgent S a act v roll with ended := e }
 
 def sender : Ev → Option Nat
   | .msg c _ _ => some c
@@ -341,7 +343,7 @@ theorem deliver_trace (S : Settings) (s : St) (e : Ev) (d : Nat) (a' : Agent)
                     have hag : s.agent d = ag := by simp [St.agent, hs]
                     have he : ag.ended = false := by rw [← hag]; simpa using hend
                     unfold TraceConcl
-                    exact Or.inr (Or.inl ⟨rfl, ag, _, hs, .play ag a v' o.roll _ he, by rw [← hag]; exact hb ▸ hbs⟩)
+                    exact Or.inr (Or.inl ⟨rfl, ag, _, hs, .play ag a v' o.roll (episodeEnds s d (playedAgent S ag a v' o.roll)) he (by intro ht; simp [episodeEnds, ht]), by rw [← hag]; exact hb ▸ hbs⟩)
                 · simp only [hd, if_false] at hb
                   exact Or.inl ⟨b, hb, hbs⟩
               unfold TraceConcl at key
